@@ -3,6 +3,7 @@ LEAN_MODULES = ["Sif.Props.C20"]
 EXTRACT = [{"group": "disp", "passes": ["dispconsts", "mintcallers", "disphooks"]}]
 FAMILIES = [
     {"name": "mint", "family": "mint", "group": "disp", "driver": "drv_issue", "n_quick": 6000, "n_thorough": 60000, "seeds_thorough": 3},
+    {"name": "dispmsgs", "family": "disp", "group": "disp", "driver": "drv_disp", "n_quick": 600, "n_thorough": 6000, "seeds_thorough": 2},
     {"name": "restart", "family": "restart", "group": "disp", "driver": "drv_issue", "n_quick": 400, "n_thorough": 4000, "seeds_thorough": 3},
     {"name": "rewards", "family": "rewards", "group": "disp", "driver": "drv_issue", "n_quick": 6000, "n_thorough": 60000, "seeds_thorough": 4},
 ]
